@@ -38,6 +38,9 @@ var tmpls = []vlib.Tmpl{
 	vlib.T("plain/extll"), vlib.T("plain/extleaf"), vlib.T("plain/extc/e2"),
 	// (appended) a list keyed by an identityref
 	vlib.T("plain/il/v"), vlib.T("plain/il/w"),
+	// (appended) leaves of the built-in types as a device reports them (XML text, gNMI typed values, JSON, JSON_IETF)
+	vlib.T("types/emp"), vlib.T("types/d3"), vlib.T("types/idr"), vlib.T("types/bits"), vlib.T("types/uni"), vlib.T("types/u64"), vlib.T("types/bin"),
+	vlib.T("types/enu"), vlib.T("types/bool"), vlib.T("types/i64"), vlib.T("types/ll-idr"), vlib.T("types/ll-d3"), vlib.T("types/ll-uni"),
 }
 var uni = &vlib.Universe{Name: "sync", Tmpls: tmpls}
 var palette = []string{"eth1", "eth10", "eth1/1"}
@@ -303,17 +306,16 @@ func buildNotification(m Msg) (*sdcpb.Notification, denot) {
 			if node.Kind == vlib.KLeafList {
 				var arr []any
 				for _, e := range vlib.ParseLL(v) {
-					arr = append(arr, e)
+					arr = append(arr, vlib.JSONElem(node, e, false))
 				}
 				doc[node.Name] = arr
-			} else if node.Type == "string" {
-				doc[node.Name] = v
-			} else if node.Type == "boolean" {
-				doc[node.Name] = v == "true"
 			} else {
-				doc[node.Name] = json.Number(v)
+				doc[node.Name] = vlib.JSONScalar(node, v, false)
 			}
-			b, _ := json.Marshal(doc)
+			b, err := json.Marshal(doc)
+			if err != nil {
+				harnessErr(err)
+			}
 			n.Update = append(n.Update, &sdcpb.Update{Path: parent.Sdcpb(), Value: &sdcpb.TypedValue{Value: &sdcpb.TypedValue_JsonVal{JsonVal: b}}})
 		}
 		dn.upd[k] = v
